@@ -19,6 +19,7 @@ structure WGS where
   trig : Bool
   decs : Nat        -- ghost: decrements of the counter
   dones : Nat       -- ghost: successful deletions by `Done`
+  early : Bool      -- ghost: some decrement produced 0 while elements were still pending
 deriving Repr, DecidableEq
 
 inductive WGT
@@ -39,7 +40,8 @@ def wgStep (fixed : Bool) (s : WGS) : WGT → List (WGS × WGT)
     if s.pending.contains x then [(s, .addFix els)]
     else [({ s with pending := s.pending ++ [x] }, .addLoop els)]
   | .addFix els =>
-    let s' := { s with counter := s.counter - 1, decs := s.decs + 1 }
+    let s' := { s with counter := s.counter - 1, decs := s.decs + 1,
+                       early := s.early || (s.counter - 1 == 0 && !s.pending.isEmpty) }
     if fixed && s'.counter == 0 then [(s', .addTrig els)] else [(s', .addLoop els)]
   | .addTrig els => [({ s with trig := true }, .addLoop els)]
   | .doneLoop [] => [(s, .fin)]
@@ -47,14 +49,15 @@ def wgStep (fixed : Bool) (s : WGS) : WGT → List (WGS × WGT)
     if s.pending.contains x then [({ s with pending := s.pending.erase x, dones := s.dones + 1 }, .doneDec els)]
     else [(s, .doneLoop els)]
   | .doneDec els =>
-    let s' := { s with counter := s.counter - 1, decs := s.decs + 1 }
+    let s' := { s with counter := s.counter - 1, decs := s.decs + 1,
+                       early := s.early || (s.counter - 1 == 0 && !s.pending.isEmpty) }
     if s'.counter == 0 then [(s', .doneTrig els)] else [(s', .doneLoop els)]
   | .doneTrig els => [({ s with trig := true }, .doneLoop els)]
   | .fin => []
 
 def wgSys (fixed : Bool) : Sys WGS WGT := { step := wgStep fixed }
 
-def WGS.init : WGS := { pending := [], counter := 0, trig := false, decs := 0, dones := 0 }
+def WGS.init : WGS := { pending := [], counter := 0, trig := false, decs := 0, dones := 0, early := false }
 
 /-- Initial thread states: calls not yet started. -/
 def WGT.isStart : WGT → Bool
@@ -69,6 +72,7 @@ def WGT.isStart : WGT → Bool
 def wgRaceSched : List (Nat × Nat) := [(0, 0), (0, 0), (1, 0), (1, 0), (1, 0), (0, 0), (0, 0), (0, 0), (0, 0)]
 
 def wgRaceInit (x : Nat) : Cfg WGS WGT :=
-  ({ pending := [x], counter := 1, trig := false, decs := 0, dones := 0 }, [.addStart [x], .doneLoop [x]])
+  ({ pending := [x], counter := 1, trig := false, decs := 0, dones := 0, early := false },
+    [.addStart [x], .doneLoop [x]])
 
 end Hive.Derived
